@@ -59,7 +59,7 @@ def evaluate():
             notes.append(repr(e)[:80])
             return None
 
-    can, req, con, cout, cin, wchk, wunchk = [], [], [], [], [], [], []
+    can, req, con, cout, cin, wchk, wunchk, wext = [], [], [], [], [], [], [], []
     for (a, b, c, d) in quads:
         s, t = W.PortType(DTs[a], ILs[b]), W.PortType(DTs[c], ILs[d])
         # can_flow_to
@@ -107,6 +107,25 @@ def evaluate():
         wchk.append(guard(lambda: wire(True)))
         wunchk.append(guard(lambda: wire(False)))
 
+        # an input port with a wire AND an external value (two sources); the destination module is declared first, so
+        # it is the first one a scheduler looks at.  rejected = WiringError before ANY handler was invoked; a
+        # WiringError after an invocation is `unknown` (fail closed)
+        def wire_and_external():
+            dg = W.WiringDiagram()
+            dg.add_module(W.ModuleSpec("b", inputs={"i": t}))
+            dg.add_module(W.ModuleSpec("a", outputs={"o": s}))
+            dg.wires.append(W.Wire("a", "o", "b", "i"))
+            ex = R.DiagramExecutor(dg)
+            seen = []
+            ex.register_module("a", lambda inputs: (seen.append("a"), {"o": 7})[1])
+            ex.register_module("b", lambda inputs: (seen.append("b"), {})[1])
+            try:
+                ex.execute({"b": {"i": 9}}, enforce_static_checks=True)
+            except WiringError:
+                return False if not seen else None
+            return None
+        wext.append(guard(wire_and_external))
+
     # raw values take the port's label
     def raw(fn):
         out = []
@@ -123,7 +142,7 @@ def evaluate():
     facts = {
         "nD": nD, "nI": nI, "dts": [d.value for d in DTs], "ils": [l.name for l in ILs],
         "quads": quads, "can": can, "req": req, "con": con, "cout": cout, "cin": cin,
-        "wchk": wchk, "wunchk": wunchk, "rawout": raw(R._coerce_output), "rawin": raw(R._coerce_input),
+        "wchk": wchk, "wunchk": wunchk, "wext": wext, "rawout": raw(R._coerce_output), "rawin": raw(R._coerce_input),
     }
     return facts, sorted(set(notes))[:5]
 
@@ -131,7 +150,7 @@ def evaluate():
 def render(f, notes) -> str:
     if f is None:
         f = {"nD": 0, "nI": 0, "dts": [], "ils": [], "quads": [], "can": [], "req": [], "con": [], "cout": [],
-             "cin": [], "wchk": [], "wunchk": [], "rawout": [], "rawin": []}
+             "cin": [], "wchk": [], "wunchk": [], "wext": [], "rawout": [], "rawin": []}
     q = f["quads"]
 
     def tbl(name, vals, doc):
@@ -189,6 +208,9 @@ def render(f, notes) -> str:
         tbl("wireChecked", f["wchk"],
             "execute(enforce_static_checks=True) over a wire that bypassed connect: accepted = value with the source label delivered"),
         tbl("wireUnchecked", f["wunchk"], "the same with enforce_static_checks=False"),
+        tbl("wireAndExternal", f.get("wext", []),
+            "execute over a wire whose destination port is ALSO given an external value, destination module declared first: "
+            "rejected = WiringError before any handler was invoked (anything else, also a WiringError after an invocation, is unknown)"),
         rawtbl("coerceOutputRaw", f["rawout"], "_coerce_output(raw, port): label of the result"),
         rawtbl("coerceInputRaw", f["rawin"], "_coerce_input(raw, port): label of the result"),
         "end Operon.Gen.WiringFlow",
@@ -200,8 +222,8 @@ def render(f, notes) -> str:
 def run() -> dict:
     facts, notes = evaluate()
     changed = write_if_changed(OUT, render(facts, notes))
-    unknown = 0 if facts is None else sum(1 for k in ("can", "req", "con", "cout", "cin", "wchk", "wunchk", "rawout", "rawin")
+    unknown = 0 if facts is None else sum(1 for k in ("can", "req", "con", "cout", "cin", "wchk", "wunchk", "wext", "rawout", "rawin")
                                           for v in facts[k] if v is None)
     return {"id": "E6", "facts_changed": changed, "file": str(OUT.relative_to(LEAN)),
-            "entries": 0 if facts is None else 7 * len(facts["quads"]) + 2 * facts["nD"] * facts["nI"],
+            "entries": 0 if facts is None else 8 * len(facts["quads"]) + 2 * facts["nD"] * facts["nI"],
             "unknown_entries": unknown if facts is not None else -1, "notes": notes}
